@@ -618,3 +618,79 @@ func returnValues(ret *ssa.Return) (vals []ssa.Value, fromCell []bool) {
 	}
 	return
 }
+
+// flowOffender walks backwards from v through conversions, phis, extracts,
+// slices and local cells. It reports whether a value satisfying isSource is
+// reached, and the first call met on the way that is not allowed (a
+// transformation of the data between source and use).
+func flowOffender(v ssa.Value, isSource func(ssa.Value) bool, allowed func(*ssa.Call) bool, boundary ...func(*ssa.Call) bool) (offender *ssa.Call, reached bool) {
+	seen := map[ssa.Value]bool{}
+	var rec func(v ssa.Value, d int)
+	rec = func(v ssa.Value, d int) {
+		if v == nil || seen[v] || d > 40 {
+			return
+		}
+		seen[v] = true
+		if isSource(v) {
+			reached = true
+			return
+		}
+		switch x := v.(type) {
+		case *ssa.Call:
+			if allowed != nil && allowed(x) {
+				for _, a := range x.Call.Args {
+					rec(a, d+1)
+				}
+				if !x.Call.IsInvoke() {
+					if _, isFn := x.Call.Value.(*ssa.Function); !isFn {
+						rec(x.Call.Value, d+1)
+					}
+				}
+				return
+			}
+			// the result of a boundary call is a new artefact, not the data itself
+			for _, b := range boundary {
+				if b(x) {
+					return
+				}
+			}
+			// a call whose arguments carry the source transforms it
+			carries := false
+			for _, a := range x.Call.Args {
+				if derives(a, isSource, &deriveOpts{throughBinOp: true}) {
+					carries = true
+				}
+			}
+			if carries && offender == nil {
+				offender = x
+				reached = true
+			}
+		case *ssa.Phi:
+			for _, e := range x.Edges {
+				rec(e, d+1)
+			}
+		case *ssa.Extract:
+			rec(x.Tuple, d+1)
+		case *ssa.Convert:
+			rec(x.X, d+1)
+		case *ssa.ChangeType:
+			rec(x.X, d+1)
+		case *ssa.MakeInterface:
+			rec(x.X, d+1)
+		case *ssa.Slice:
+			rec(x.X, d+1)
+		case *ssa.UnOp:
+			if al, ok := x.X.(*ssa.Alloc); ok && al.Referrers() != nil {
+				for _, r := range *al.Referrers() {
+					if st, ok := r.(*ssa.Store); ok && st.Addr == al {
+						rec(st.Val, d+1)
+					}
+				}
+				return
+			}
+			rec(x.X, d+1)
+		}
+	}
+	rec(v, 0)
+	return offender, reached
+}
